@@ -73,6 +73,15 @@ func runC07(input string) string {
 			var dst []byte
 			inspector.AssignBuf(&dst, n, buf)
 			hs = append(hs, &handout{b: &dst, live: true})
+		case "YBb":
+			var dst []byte
+			inspector.AssignBuf(&dst, f[1] == "true", buf)
+			hs = append(hs, &handout{b: &dst, live: true})
+		case "YSb":
+			var dst string
+			v := f[1] == "true"
+			inspector.AssignBuf(&dst, &v, buf)
+			hs = append(hs, &handout{isStr: true, s: &dst, live: true})
 		case "YS":
 			n, _ := strconv.ParseInt(f[1], 10, 64)
 			var dst string
